@@ -317,15 +317,73 @@ theorem cellOps_positions (w : UInt16) (buf : List Cell) (i : Nat) (hi : i < buf
   have := cellOpsFrom_positions w buf 0 i hi
   simpa [cellOps] using this
 
+open VaxisModel.Gen.SurfaceFacts in
+/-- App.Run renders the root surface into `win.New(0, 0, int(s.Size.Width), int(s.Size.Height))` of
+the screen window — the root clips its children like every other surface (F114 fixed) — and the
+harness hook `VerifC14RenderRoot` evaluates the same expression; `VerifC14Render` is the bare
+recursive render. -/
+theorem facts_run_render :
+    runRenderWin = "WIN.New(0,0,int(S.Size.Width),int(S.Size.Height))" ∧ runRenderClipsRoot = true ∧
+    hookRenderRootWin = runRenderWin ∧ hookRenderWin = "WIN" := by decide
+
+/-- The model's Run entry is the root-clipping render. -/
+theorem renderRoot_clips (s : Surface) (win : Win) (scr : Screen) :
+    renderRoot s win scr = render s (rootWin s win) scr := by
+  unfold renderRoot renderRootWith renderClipped
+  rw [facts_run_render.2.1]; rfl
+
 open VaxisModel.Lemmas.SurfacePaintSpec in
-/-- **render_paints.** Rendering a surface tree (no zero-width surface with a non-empty buffer) into
-the full-screen window of a well-formed screen leaves every screen cell showing the top layer of
-the painter's algorithm of `Spec.Surface` — each surface at its parent's origin plus its offset,
-clipped to its own rectangle and to every ancestor's below the root and to the window, children
-after their parent in z-order with ties in child order — and unchanged where no layer reaches.
-This is the reading in which the root's own rectangle does not clip its children (what the code
-does; the stricter reading is recorded as finding F114). -/
+/-- **render_paints.** The render call of App.Run — the root surface of a frame rendered into the
+screen of a well-formed Vaxis (no zero-width surface with a non-empty buffer in the tree) — leaves
+every screen cell showing the top layer of the painter's algorithm of `Spec.Surface`: each surface
+at its parent's origin plus its offset, clipped to its own rectangle and to the rectangle of
+*every* ancestor, the root included, and to the screen; children after their parent in z-order
+with ties in child order; unchanged where no layer reaches.  Full strength: `layers true`, no
+exclusion (the root-clip exception F114 is fixed in the source; `Witness/F114` shows the old entry
+fails this statement). -/
 theorem render_paints (s : Surface) (scr scr' : Screen) (hwf : scr.WF) (hd : s.divZero = false)
+    (hr : renderRoot s (Win.ofScreen scr) scr = .ok scr') (x y : Int) (hin : inScreen scr x y) :
+    scr'.get x y =
+      match Spec.Surface.topAt (Spec.Surface.layers true (toTree 0 0 0 s) 0 0
+          { x0 := 0, y0 := 0, x1 := scr.cols, y1 := scr.rows }) x y with
+      | some c => some c
+      | none => scr.get x y := by
+  rw [renderRoot_clips] at hr
+  rw [render_last_wins s _ scr scr' hr x y, paint_spec scr s _ _ _ _ (tied_rootWin scr s) hd x y,
+    layers_toTree, if_pos rfl]
+  obtain ⟨v, hv⟩ := VaxisModel.Lemmas.Window.get_some_of_inScreen scr hwf x y hin
+  generalize Spec.Surface.topAt _ x y = r
+  cases r with
+  | none => rfl
+  | some c => simp [hv]
+
+open VaxisModel.Lemmas.SurfacePaintSpec in
+/-- **render_paints, whole frame.** A frame of App.Run (`win.Clear()`, then the render call) shows at
+every screen cell the top layer of the painter's algorithm, and a blank cell where no layer
+reaches — nothing of the previous frame survives. -/
+theorem run_frame_paints (s : Surface) (scr scr' : Screen) (hwf : scr.WF) (hd : s.divZero = false)
+    (hr : runFrame s scr = .ok scr') (x y : Int) (hin : inScreen scr x y) :
+    scr'.get x y =
+      match Spec.Surface.topAt (Spec.Surface.layers true (toTree 0 0 0 s) 0 0
+          { x0 := 0, y0 := 0, x1 := scr.cols, y1 := scr.rows }) x y with
+      | some c => some c
+      | none => some clearCell := by
+  obtain ⟨hwf0, hc0, hr0, hg0⟩ := clear_screen scr hwf
+  generalize hs0 : clear (Win.ofScreen scr) scr = scr0 at hwf0 hc0 hr0 hg0
+  have hw : Win.ofScreen scr = Win.ofScreen scr0 := by
+    unfold Win.ofScreen; rw [hc0, hr0]
+  have hr1 : renderRoot s (Win.ofScreen scr0) scr0 = .ok scr' := by
+    rw [← hw, ← hs0]; exact hr
+  have hin0 : inScreen scr0 x y := by
+    unfold inScreen at hin ⊢; rw [hc0, hr0]; exact hin
+  rw [render_paints s scr0 scr' hwf0 hd hr1 x y hin0, hc0, hr0, hg0 x y hin]
+
+open VaxisModel.Lemmas.SurfacePaintSpec in
+/-- **The bare recursive render** (`s.render(win, …)` into the whole screen window, as App.Run called
+it before the fix of F114 and as `render` calls itself for children): the same painter's algorithm
+except that the surface's own rectangle does not clip its children (`layers false`) — clipping the
+surface passed in is the caller's job, done through the window. -/
+theorem render_bare_paints (s : Surface) (scr scr' : Screen) (hwf : scr.WF) (hd : s.divZero = false)
     (hr : render s (Win.ofScreen scr) scr = .ok scr') (x y : Int) (hin : inScreen scr x y) :
     scr'.get x y =
       match Spec.Surface.topAt (Spec.Surface.layers false (toTree 0 0 0 s) 0 0
